@@ -11,6 +11,7 @@ import (
 	slug "github.com/hashicorp/go-slug"
 	"github.com/hashicorp/go-slug/sourcebundle"
 
+	"verif/harness/corpus"
 	"verif/harness/fw"
 	"verif/harness/gen"
 )
@@ -189,8 +190,20 @@ func c19Unpack(env *fw.Env, idx int) fw.Result {
 
 // ---- (c) manifest documents through OpenDir ------------------------------------------------
 
+var c19KeptManifests = corpus.Manifests()
+
 func c19OpenDir(env *fw.Env, idx int) fw.Result {
 	r := env.Rand(idx)
+	var doc []byte
+	if idx < len(c19KeptManifests) {
+		doc = []byte(c19KeptManifests[idx])
+	} else {
+		doc = c19RandomDoc(r)
+	}
+	return c19OpenDirDoc(env, doc)
+}
+
+func c19RandomDoc(r *fw.Rand) []byte {
 	var doc []byte
 	switch r.Intn(4) {
 	case 0:
@@ -208,6 +221,10 @@ func c19OpenDir(env *fw.Env, idx int) fw.Result {
 		}
 		doc = b
 	}
+	return doc
+}
+
+func c19OpenDirDoc(env *fw.Env, doc []byte) fw.Result {
 	root := c18Root(env)
 	res := c18Check(root, doc)
 	res.Hash = fw.HashString(string(doc))
